@@ -179,6 +179,18 @@ class TzInterp:
                         return Unknown('fromtimestamp() without tz gives '
                                        'naive local time')
                     z = self.ev(tzarg, env)
+                    # the seconds themselves, not something computed from
+                    # them (a unit guess, an offset correction ...)
+                    t0 = e.args[0] if e.args else kw.get('timestamp')
+                    if isinstance(t0, ast.Call) and model.norm(
+                            t0.func) == 'float' and len(t0.args) == 1:
+                        t0 = t0.args[0]
+                    if not isinstance(t0, ast.Name):
+                        return Unknown(
+                            'fromtimestamp of the computed value `%s`: the '
+                            'instant is no longer the timestamp that was '
+                            'given' % (model.norm(t0) if t0 is not None
+                                       else '?'))
                     if isinstance(z, Zone):
                         # instant = ts; wall = ts + zone offset
                         return DTv(0, 0, ('zone', z.text), True, ts=1)
